@@ -1269,15 +1269,21 @@ def execute_with(case, names):
 
 
 def explain(case, max_size=3):
-    """-> tuple of defect keys (smallest set of repairs under which the history passes), or None"""
+    """-> tuple of defect keys (smallest set of repairs under which the history passes), or None.
+    Cost for a history that no repair explains: len(REPAIRS) + 1 executions."""
     import itertools
     keys = [k for k, _ in REPAIRS]
-    for size in range(1, max_size + 1):
+
+    def passes(sub):
+        r = execute_with(case, set(sub))
+        return not r["failure"] and not r.get("invalid")
+    for k in keys:
+        if passes((k,)):
+            return (k,)
+    if not passes(keys):
+        return None
+    for size in range(2, max_size + 1):
         for sub in itertools.combinations(keys, size):
-            r = execute_with(case, set(sub))
-            if not r["failure"] and not r.get("invalid"):
+            if passes(sub):
                 return sub
-    r = execute_with(case, set(keys))
-    if not r["failure"] and not r.get("invalid"):
-        return tuple(keys)
-    return None
+    return tuple(keys)
